@@ -290,7 +290,9 @@ let probe_model (a : args) : (sb_expr * sb_st) option =
     Some (SbFunctionCall (callee, args), fixture extra rty [ (N0, SbVOpaque) ])
   | "ctor" ->
     let t = nm (hexs a "ty") in
-    Some ((if mk then SbFunctionCall (var "sbtype", [ marker ]) else SbFunctionCall (var "sbtype", [])),
+    (* T(), T(1), T("a", 1): VMOps::ConstructorCall -> type->Instantiate(args) *)
+    Some ((if mk then SbFunctionCall (var "sbtype", [ marker ])
+           else SbFunctionCall (var "sbtype", List.init (num a "nargs" 0) (fun _ -> lnum))),
           fixture [ (nm "sbtype", SbVType t) ] ty_dict [])
   | "read" ->
     let t = nm (hexs a "ty") and f = hexs a "field" in
@@ -372,7 +374,7 @@ let oracle_c19 script trace =
                 | "wpos" -> (if str a "w" "" = "set" then "set-" ^ str a "op" "" ^ "-" ^ str a "lhs" "" else str a "w" "")
                             ^ "@" ^ str a "form" "" ^ (if str a "ctx" "none" = "none" then "" else "." ^ str a "ctx" "")
                 | "call" -> "call:" ^ hexs a "fn"
-                | "ctor" -> "ctor:" ^ hexs a "ty"
+                | "ctor" -> "construct:" ^ hexs a "ty"
                 | "read" -> "read:" ^ hexs a "ty" ^ "." ^ hexs a "field"
                 | "using" -> "using:" ^ hexs a "ty" ^ "." ^ hexs a "field"
                 | "global" -> "global:" ^ hexs a "name"
